@@ -454,11 +454,11 @@ def run(ctx):
             ctx.violation('y-logical', 'the Y-only normalizer does not split into exactly two cosets', {'code': repr(code), 'classes': classes})
         wts = K.sum(axis=1)
         for _ in range(ctx.pick(40, 300)):
-            p = rng.choice([0.02, 0.1, 0.2, 0.3, 0.45])
+            p = rng.choice([0.02, 0.1, 0.2, 0.3, 0.45, 0.6, 0.85])
             yerr = np.array([rng.random() < p for _ in range(n)], dtype=np.uint8)
             err = np.concatenate([yerr, yerr]).astype(int)
             syn = pt.bsp(err, code.stabilizers.T)
-            py = rng.choice([p, rng.uniform(0.01, 0.49)])
+            py = rng.choice([p, rng.uniform(0.01, 0.49), rng.uniform(0.51, 0.99)])   # Pr(Y) above 1/2 too: heavier is likelier
             dist = (1 - py, 0.0, py, 0.0)
             try:
                 r = ydec.decode(code, syn, error_model=DistModel(dist), error_probability=py)
